@@ -33,6 +33,8 @@ Range(s) == {s[i] : i \in DOMAIN s}
 \* identity sets for the end-to-end judge (cfg: Ctrs <- BigCtrs, Wk <- BigWk)
 BigCtrs == 1 .. 520
 BigWk == 0 .. 1000
+MidCtrs == 1 .. 130
+MidWk == 0 .. 300
 
 TraceInit == /\ l = 1
              /\ DCInit([c \in Ctrs |-> [state |-> "Complete", prio |-> 0]], "exact")
